@@ -66,9 +66,10 @@ ERROR_CLASSES = [
     ('own-initializer', r'before deduction of .auto.|cannot appear in its own initializer'),
     ('not-callable', r'cannot be used as a function|is not a function or function pointer'),
     ('std-hidden', r'not a member of .*\bstd\b|in .*::std.|.std. is not a class, namespace|aka .*is not a class, namespace|'
-                   r'no (template|member|type) named .* in .*std|::std. used without template arguments|'
-                   r'std. is not a class|::std<'),
-    ('constructor-name', r'is a constructor name|cannot refer to type member|invalid use of |'
+                   r'no (template|member|type) named .* in .*std|using std = .* used without template arguments|'
+                   r'::std. used without template arguments|std. is not a class|::std<|'
+                   r'keyword to treat .forward. as a dependent template name|missing template arguments after .std<'),
+    ('constructor-name', r'is a constructor name|cannot refer to type member|invalid use of (?!incomplete)|'
                          r'names the constructor|cannot convert .* in return|no viable conversion from returned value'),
     ('function-hides-type', r'redefinition of .* as different kind of symbol|conflicting declaration of template|'
                             r'does not name a type|no type named|must be a type|type/value mismatch'),
@@ -105,7 +106,7 @@ def explains(model_class, error_class):
 def first_error(log):
     for l in log.splitlines():
         if re.search(r'\berror\b', l):
-            return re.sub(r'^[^ ]*:\d+:\d+: ', '', l)[:300]
+            return re.sub(r'^[^ ]*:\d+:\d+: ', '', l)[:4000]
     return log.strip()[:300]
 
 
@@ -334,7 +335,7 @@ class Run:
                     'model_class': mcls, 'predicted': exp != 'ok', 'explained': mcls != '', 'stream': c.stream}
             rep = {'kind': 'impl≠spec: generated code does not compile', 'config': {'cxx': cxx, 'std': std},
                    'schema_xml': open(c.xml, encoding='utf-8').read(), 'schema': c.s, 'job': what,
-                   'first_error': msg, 'compiler_output': log[:3000],
+                   'first_error': msg[:400], 'compiler_output': log[:3000],
                    'observed': {'impl': 'compile error', 'spec': 'compiles',
                                 'model': [p for p in c.problems if p['on'] != 'none'][:8]},
                    'case': case}
@@ -345,7 +346,7 @@ class Run:
             self.failure_cases[hk] = self.failure_cases.get(hk, 0) + 1
             if not case['explained'] or not case['predicted']:
                 self.unexplained.append({'stream': c.stream, 'config': '%s %s' % (cxx, std), 'job': what,
-                                         'first_error': msg[:200], 'model': [p for p in c.problems if p['on'] != 'none'][:4]})
+                                         'first_error': msg[:300], 'model': [p for p in c.problems if p['on'] != 'none'][:4]})
             chk.report_failure(rep)
             if len(chk.cov['samples']) < 6:
                 chk.sample({'stream': c.stream, 'config': '%s %s' % (cxx, std), 'job': what, 'first_error': msg[:160],
@@ -388,8 +389,9 @@ class Run:
 
 
 def streams(chk):
-    """[(stream name, [schema dict], headers?)]"""
+    """[(stream name, [schema dict], headers alone?, configurations)]"""
     thorough = chk.tier == 'thorough'
+    configs = CONFIGS_ALL if thorough else CONFIGS_QUICK
     out = []
     seed = chk.seed
     feat = {}
@@ -398,41 +400,47 @@ def streams(chk):
         for k, v in f.items():
             feat[k] = feat.get(k, 0) + v
     # (a) name clashes
-    n = 110 if thorough else 36
+    n = 80 if thorough else 36
     lst = []
     for i in range(n):
         rng = random.Random((seed * 1000003 + i) * 31 + 7)
         s, f = G.clash_schema(rng, hazard_rate=0.03 if i % 3 else 0.0)
         add(f)
         lst.append(s)
-    out.append(('name-clash', lst, True))
+    out.append(('name-clash', lst, True, configs))
     lst = []
     for i in range(12 if thorough else 6):
         rng = random.Random((seed * 1000003 + i) * 31 + 8)
         s, f = G.path_clash_schema(rng)
         add(f)
         lst.append(s)
-    out.append(('path-clash', lst, True))
-    # (a') one identifier of the pool at one position
+    out.append(('path-clash', lst, True, configs))
+    # (a') one identifier of the pool at one position of a schema that has one entity of every kind
     pool = G.TEMPLATE_IDENTS + G.KEYWORD_CASE + G.EXTRA_IDENTS
     pairs = [(i, p) for i in pool for p in G.POSITIONS]
-    if not thorough:
-        rng = random.Random(seed * 7 + 3)
-        hot = [(i, p) for (i, p) in pairs if i in G.HOT_IDENTS]
-        pairs = rng.sample(hot, 36) + rng.sample(pairs, 24)
-    out.append(('one-identifier', [G.sweep_schema(i, p) for i, p in pairs], False))
-    feat['sweep.pairs'] = len(pairs)
+    hot = [(i, p) for (i, p) in pairs if i in G.HOT_IDENTS]
+    rng = random.Random(seed * 7 + 3)
+    if thorough:
+        cold = [x for x in pairs if x[0] not in G.HOT_IDENTS]
+        out.append(('one-identifier', [G.sweep_schema(i, p) for i, p in hot + rng.sample(cold, 700)], False, CONFIGS_QUICK))
+        sub = rng.sample(hot, 320)
+        out.append(('one-identifier-all-configs', [G.sweep_schema(i, p) for i, p in sub], False,
+                    [c for c in CONFIGS_ALL if c not in CONFIGS_QUICK]))
+        feat['sweep.pairs'] = len(hot) + 700
+    else:
+        sel = rng.sample(hot, 36) + rng.sample(pairs, 24)
+        out.append(('one-identifier', [G.sweep_schema(i, p) for i, p in sel], False, configs))
+        feat['sweep.pairs'] = len(sel)
     # (b) literal boundaries
-    n = 110 if thorough else 40
+    n = 80 if thorough else 40
     lst = []
     for i in range(n):
         rng = random.Random((seed * 1000003 + i) * 31 + 9)
         s, f = G.literal_schema(rng)
         add(f)
         lst.append(s)
-    out.append(('literal-boundary', lst, True))
-    lst = G.literal_probes()
-    out.append(('literal-probe', lst, True))
+    out.append(('literal-boundary', lst, True, configs))
+    out.append(('literal-probe', G.literal_probes(), True, configs))
     return out, feat
 
 
@@ -457,11 +465,13 @@ def run(chk):
         chk.leanchecker(MODULE)
     configs = CONFIGS_ALL if chk.tier == 'thorough' else CONFIGS_QUICK
     run = Run(chk, configs)
+    sts = []
     try:
         if run.prepare():
             sts, feat = streams(chk)
             idx = 0
-            for name, schemas, headers in sts:
+            for name, schemas, headers, cfgs in sts:
+                run.configs = cfgs
                 cases = []
                 for s in schemas:
                     cases.append(Case(idx, name, s, run.workdir, headers=headers))
@@ -488,6 +498,7 @@ def run(chk):
     chk.cov['unexplained_failures'] = run.unexplained[:20]
     chk.cov['input_feature_histogram'] = dict(sorted(run.feat.items()))
     chk.cov['configurations'] = ['%s -std=%s' % c for c in configs]
+    chk.cov['configurations_per_stream'] = {name: ['%s -std=%s' % c for c in cfgs] for name, _, _, cfgs in (sts if run.model else [])}
     if chk.failed_obligations and not chk.violations:
         chk.report_unproved('theorem', chk.failed_obligations)
     chk.level = 'proof'
